@@ -255,10 +255,29 @@ pub fn race_oracle(scn: &Race2, t: &Terminal, scratch: &Scratch) -> Vec<Violatio
     }
     // A backup that reports complete success restores its own source exactly; one that reported
     // skipped files may lack those files but never holds wrong content.
+    // A backup never removes anything, whatever it races with.
+    for s in &t.steps {
+        if s.ok && matches!(s.verb, Verb::RemoveFile | Verb::RemoveDirAll) {
+            v.push(Violation::new(
+                "C07:race-backup-removed-something",
+                format!("{at}: actor {} issued {} {}", s.actor, crate::hook::verb_name(s.verb), s.path),
+            ));
+        }
+    }
     for a in 0..2 {
         if let e3::ActorResult::Backup(out) = &t.results[a] {
             if let (Some(stats), Some(b)) = (out.ok_stats(), chosen[a]) {
-                if t.snap.has_tail_file(b) && chosen[1 - a] != Some(b) {
+                // the band of a backup that returned Ok exists and is complete, whatever the
+                // other backup did
+                if !t.snap.has_tail_file(b) || !t.snap.has_head(b) {
+                    v.push(Violation::new(
+                        "C07:race-successful-backup-version-gone",
+                        format!("{at}: actor {a} returned Ok for b{b:04} but that version is not there as a complete band"),
+                    ));
+                    continue;
+                }
+                // (if both wrote into one band its content is nobody's: reported above)
+                if band_writers.get(&b).is_none_or(|w| w.len() == 1) {
                     let clean = stats.errors == 0;
                     let dest = scratch.fresh("rr");
                     let ro = crate::run::do_restore(&t.dir, &dest, &crate::run::RestoreArgs::band(b), crate::run::NOHOOK, crate::run::Flavor::Current);
